@@ -109,7 +109,7 @@ def c01(ctx):
     ctx.bounds.update(CONC_BOUNDS)
     ctx.bounds['scenarios'] = 'reader(load|load_full|into_inner) || writer(store): fast slot, 3 debts the writer must pay, fallback path with 8 slots held, guard created on one thread and dropped on another while its creator stores'
     ctx.outside += CONC_OUTSIDE
-    conc_set(ctx, ['a_fast', 'moved_guard'] if ctx.tier == 'quick' else ['a_fast', 'moved_guard', 'a_full', 'a_keep', 'b_held3', 'b_fallback', 'iso_b'])
+    conc_set(ctx, ['a_fast', 'a_full', 'moved_guard'] if ctx.tier == 'quick' else ['a_fast', 'moved_guard', 'a_full', 'a_keep', 'b_held3', 'b_fallback', 'iso_b'])
     seq_run(ctx, 'c10_seq_threads')
 
 
@@ -120,6 +120,7 @@ def c02(ctx):
     ctx.outside += CONC_OUTSIDE
     conc_set(ctx, ['a_keep', 'swap2'] if ctx.tier == 'quick' else ['a_keep', 'swap2', 'a_fast', 'a_full', 'b_held3', 'moved_guard', 'cas_aba', 'rcu2'])
     seq_run(ctx, 'c14_default_2', covers=(1, 2))
+    seq_run(ctx, 'c10_seq_threads')
 
 
 @prop('C03')
